@@ -1,6 +1,103 @@
-From Coq Require Import List.
+(* C10 — Directive trees produced by accepted transformations are valid.  Property theorems only.
+
+   FULL STATEMENT (false of the unchanged code, see C10_gap_witnesses):
+     forall r0 ops r, run ops r0 = Some r -> gen_ok r = true -> WF r /\ cc_viol r = []
+   i.e. whatever FortranWriter accepts after any history of accepted transformations satisfies the three
+   named conditions (WF) and the compiler's nesting rules (cc_viol, coq/C10/Compiler.v, validated against
+   gfortran by the check).  What is proved instead:
+     * C10_gen_ok_WF_unchecked / C10_gen_ok_WF_gaps: for EVERY tree the writer accepts (hence every history),
+       each violation of WF sits at a (clause, directive) pair that the generated tables do not enforce, and
+       today those pairs are at most the four of Cover.known_gaps;
+     * C10_gen_ok_WF_partial / C10_history_WF_partial: WF holds under the sufficient conditions gap_free /
+       op_safe;
+     * C10_gap_witnesses: for each known finding, a conditional witness (history, final tree, violation).
+   gen_rules / excluded_tab / created_tab / collapse_tab are regenerated from /repo on every run (C10.Gen). *)
+From Coq Require Import List Bool.
 Import ListNotations.
-From PV Require Import C10.Kinds C10.Gen C10.Model C10.Compiler C10.Proofs.
-Theorem C10_placeholder : gen_ok [Leaf LAssign] = true.
-Proof. exact placeholder_. Qed.
-Print Assumptions C10_placeholder.
+From PV Require Import C10.Kinds C10.Gen C10.Model C10.Compiler C10.Cover C10.Lemmas C10.Proofs C10.Proofs2 C10.Proofs3
+  C10.Witness C10.GenWitness C10.WitnessProof.
+
+(* every WF violation in a tree accepted by the writer is at a (clause, kind) the tables leave unchecked *)
+Theorem C10_gen_ok_WF_unchecked : forall r, gen_ok r = true ->
+  forall anc n cl, In (anc, n) (rnodes r) -> wf_node (rkinds r) (anc, n) = Some cl -> uncheck cl (kind_of n) = true.
+Proof. exact gen_ok_wf_unchecked_. Qed.
+Print Assumptions C10_gen_ok_WF_unchecked.
+
+(* ... and with the tables of the tree under test these are at most the four known gaps:
+   nested ACC parallel/kernels, collapse of OMPLoopDirective and of ACCLoopDirective *)
+Theorem C10_gen_ok_WF_gaps : forall r, gen_ok r = true ->
+  forall anc n cl, In (anc, n) (rnodes r) -> wf_node (rkinds r) (anc, n) = Some cl -> In (cl, kind_of n) known_gaps.
+Proof. exact gen_ok_wf_gaps_. Qed.
+Print Assumptions C10_gen_ok_WF_gaps.
+
+(* the executable specification is the declarative one *)
+Theorem C10_wf_b_WF : forall r, wf_b r = true <-> WF r.
+Proof. exact wf_b_WF. Qed.
+Print Assumptions C10_wf_b_WF.
+
+(* partial form of gen_ok_WF: trees without a gap node *)
+Theorem C10_gen_ok_WF_partial : forall r, gen_ok r = true -> gap_free r = true -> WF r.
+Proof. exact gen_ok_WF_partial_. Qed.
+Print Assumptions C10_gen_ok_WF_partial.
+
+(* any history of operations that insert no ACC parallel/kernels region and no collapse clause on
+   `omp loop` / `acc loop`: what the writer accepts is WF, and the loop/statement skeleton is unchanged *)
+Theorem C10_history_WF_partial : forall r0 ops r, forallb directive_free r0 = true -> forallb op_safe ops = true ->
+  run ops r0 = Some r -> gen_ok r = true -> WF r /\ rerase r = rerase r0.
+Proof. exact history_WF_partial_. Qed.
+Print Assumptions C10_history_WF_partial.
+
+Theorem C10_history_WF_gaps : forall r0 ops r, run ops r0 = Some r -> gen_ok r = true ->
+  forall cl k, In (cl, k) (wf_viol r) -> In (cl, k) known_gaps.
+Proof. exact history_WF_gaps_. Qed.
+Print Assumptions C10_history_WF_gaps.
+
+Example C10_history_nonvacuous :
+  forallb directive_free ex_start = true /\ forallb op_safe ex_ops = true /\
+  run ex_ops ex_start = Some [Dir OMPParallel None [Dir OMPDo (Some 2) [Loop [Loop [Leaf LAssign]]]; Leaf LAssign]] /\
+  gen_ok [Dir OMPParallel None [Dir OMPDo (Some 2) [Loop [Loop [Leaf LAssign]]]; Leaf LAssign]] = true.
+Proof. exact history_nonvacuous_. Qed.
+Print Assumptions C10_history_nonvacuous.
+
+Example C10_refusals_nonvacuous :
+  gen_ok [Dir OMPDo None [Loop [Leaf LAssign]]] = false /\
+  gen_ok [Dir OMPParallel None [Dir OMPParallel None [Leaf LAssign]]] = false /\
+  gen_ok [Dir OMPParallel None [Dir OMPDo (Some 2) [Loop [Loop [Leaf LAssign]; Leaf LAssign]]]] = false.
+Proof. exact refusals_nonvacuous_. Qed.
+Print Assumptions C10_refusals_nonvacuous.
+
+(* the gap between ParallelLoopTrans.validate and generation: validate accepts collapse=2 on an imperfect
+   nest (it follows loop_body[0] only) ... *)
+Theorem C10_collapse_validate_weaker : forall t, In t [TOMPDo; TOMPParallelDo; TOMPTeamsParDo; TOMPLoop; TACCLoop] ->
+  validate_loop t imperfect2 (Build_op t (TNode [] 0) (Some 2) true) = Ok /\ perfect_b 2 [imperfect2] = false.
+Proof. exact collapse_validate_weaker_. Qed.
+Print Assumptions C10_collapse_validate_weaker.
+
+(* ... and the writer refuses it for OMPDoDirective, OMPParallelDoDirective, OMPTeamsDistributeParallelDo *)
+Theorem C10_writer_refuses_imperfect_collapse : forall r anc d c b,
+  In (anc, Dir d (Some c) b) (rnodes r) -> In d [OMPDo; OMPParallelDo; OMPTeamsParDo] ->
+  perfect_b c b = false -> gen_ok r = false.
+Proof. exact writer_refuses_imperfect_collapse_. Qed.
+Print Assumptions C10_writer_refuses_imperfect_collapse.
+
+(* shape preservation: every accepted transformation, and every history, only inserts directives *)
+Theorem C10_apply_op_erase : forall o r r', apply_op o r = Accepted r' -> rerase r' = rerase r.
+Proof. exact apply_op_erase_. Qed.
+Print Assumptions C10_apply_op_erase.
+
+Theorem C10_run_erase : forall ops r r', run ops r = Some r' -> rerase r' = rerase r.
+Proof. exact run_erase_. Qed.
+Print Assumptions C10_run_erase.
+
+(* conditional refutations of the full statement, one per known finding (coq/C10/GenWitness.v is generated
+   from props/C10/known_findings.json): IF the model still accepts the history with this final tree and its
+   writer accepts that tree, THEN the start is directive-free and the final tree shows the listed violation
+   of WF / of the compiler rules.  The check evaluates the premises (Witness.premises_b) on every run and
+   replays the witnesses on PSyclone and gfortran. *)
+Theorem C10_gap_witnesses : Forall witness_holds witnesses.
+Proof. exact all_witnesses_. Qed.
+Print Assumptions C10_gap_witnesses.
+
+Example C10_gap_witnesses_nonempty : 1 <= length witnesses.
+Proof. exact witnesses_nonempty_. Qed.
+Print Assumptions C10_gap_witnesses_nonempty.
